@@ -492,13 +492,14 @@ def findall(pattern, s, flags=0):
     tree = parse(pat)
     ng = tree.state.groups - 1
     res = []
+    tc = core.try_concretize_str if core.OPTS["concretize"] else (lambda x: x)
     for mo in finditer(pat, s):
         if ng == 0:
-            res.append(mo.group(0))
+            res.append(tc(mo.group(0)))
         elif ng == 1:
-            res.append(mo.group_or_empty(1))
+            res.append(tc(mo.group_or_empty(1)))
         else:
-            res.append(tuple(mo.group_or_empty(g) for g in range(1, ng + 1)))
+            res.append(tuple(tc(mo.group_or_empty(g)) for g in range(1, ng + 1)))
     return res
 
 
